@@ -87,7 +87,7 @@ pub fn run(seed: u64, n: usize, bin: &str, scratch: &str, driver: &str, out: &st
         let dir = root.join(format!("case{}", k));
         std::fs::create_dir_all(&dir).unwrap();
         // ---- files ----
-        let nfiles = if (1..=6).contains(&k) { 1 } else { match rng.below(4) { 0 => 1, 1 => 1, 2 => 2, _ => 3 } };
+        let nfiles = if (1..=7).contains(&k) { 1 } else { match rng.below(4) { 0 => 1, 1 => 1, 2 => 2, _ => 3 } };
         let mut inputs: Vec<String> = vec![];
         let mut used: Vec<&str> = vec![];
         for _ in 0..nfiles {
@@ -98,8 +98,10 @@ pub fn run(seed: u64, n: usize, bin: &str, scratch: &str, driver: &str, out: &st
                 }
             };
             used.push(name);
-            let content: Vec<u8> = match if k == 1 { 100 } else if k == 2 { 101 } else if k == 3 { 102 } else if (4..7).contains(&k) && k - 4 < chain_inputs.len() { 103 } else { rng.below(10) } {
+            let content: Vec<u8> = match if k == 1 { 100 } else if k == 2 { 101 } else if k == 3 { 102 } else if (4..7).contains(&k) && k - 4 < chain_inputs.len() { 103 } else if k == 7 { 104 } else { rng.below(10) } {
                 103 => chain_inputs[k - 4].clone(),
+                // a multi-byte legacy file above 1 MB (normalise): the text written is the strict decode of the whole file
+                104 => { let n = 1_020_000 + rng.below(60_000); multibyte_text(&mut rng, &corpus, n, *["shift_jis", "big5", "gb18030"].get(seed as usize % 3).unwrap_or(&"big5")) }
                 // sizes around the library's limits: above the 500,000-byte prefix limit (whole-input strict decoding still
                 // applies), and above 1,000,000 bytes (lazy mode) -- legacy text, and ASCII that turns into legacy text
                 100 => { let n = 500_001 + rng.below(400_000); legacy_text(&mut rng, &corpus, n).0 }
@@ -145,7 +147,7 @@ pub fn run(seed: u64, n: usize, bin: &str, scratch: &str, driver: &str, out: &st
             inputs.push(p.to_string_lossy().to_string());
         }
         // sometimes an input whose name is the sibling name of another input
-        let special = (1..=6).contains(&k);
+        let special = (1..=7).contains(&k);
         if !special && rng.chance(1, 9) {
             let t: String = rng.pick(&corpus.texts).chars().take(300).collect();
             let ru = "\u{41f}\u{440}\u{438}\u{432}\u{435}\u{442}, \u{43c}\u{438}\u{440}! \u{42d}\u{442}\u{43e} \u{43f}\u{440}\u{43e}\u{441}\u{442}\u{43e}\u{439} \u{440}\u{443}\u{441}\u{441}\u{43a}\u{438}\u{439} \u{442}\u{435}\u{43a}\u{441}\u{442} \u{434}\u{43b}\u{44f} \u{43f}\u{440}\u{43e}\u{432}\u{435}\u{440}\u{43a}\u{438} \u{43a}\u{43e}\u{434}\u{438}\u{440}\u{43e}\u{432}\u{43a}\u{438}. ".repeat(4);
@@ -207,7 +209,7 @@ pub fn run(seed: u64, n: usize, bin: &str, scratch: &str, driver: &str, out: &st
             _ => {}
         }
         // ---- flags ----
-        let fl = match if k == 1 || k == 3 { 3 } else if k == 2 || k == 4 { 9 } else if k == 5 { 7 } else if k == 6 { 3 } else { rng.below(10) } {
+        let fl = match if k == 1 || k == 3 || k == 7 { 3 } else if k == 2 || k == 4 { 9 } else if k == 5 { 7 } else if k == 6 { 3 } else { rng.below(10) } {
             0 => Flags { normalize: false, replace: true, force: false, minimal: false, alternatives: false, threshold: None },
             1 => Flags { normalize: true, replace: false, force: true, minimal: false, alternatives: false, threshold: None },
             2 => Flags { normalize: false, replace: false, force: false, minimal: false, alternatives: false, threshold: Some(*rng.pick(&[1.5f32, -0.25, 2.0])) },
@@ -309,6 +311,11 @@ pub fn run(seed: u64, n: usize, bin: &str, scratch: &str, driver: &str, out: &st
                     let recs: Vec<serde_json::Value> = if v.is_array() { v.as_array().unwrap().clone() } else { vec![v] };
                     if recs.len() != m_recs.len() {
                         diffs.push(json!({"what": "number of records", "real": recs.len(), "model": m_recs.len(), "case": case}));
+                        // the expected records are the library's own answers laid out by Cli.report: a different COUNT (or an array
+                        // where one object is due) is a report that does not agree with the library
+                        violations.push(json!({"prop": "C16", "what": format!("the report holds {} record(s) ({}) where the library's result for these inputs gives {} ({})", recs.len(),
+                            if want_obj != recs.len().eq(&1) || true { if recs.len() == 1 { "object" } else { "array" } } else { "" }, m_recs.len(), rep_kind),
+                            "known": null, "case": full_case()}));
                     } else {
                         for (r, m) in recs.iter().zip(m_recs.iter()) {
                             // REC path enc aliases alts lang alphabets bom chaos coh upath
